@@ -72,24 +72,40 @@ Proof. exact errors_only_ValueError. Qed.
 Print Assumptions C16_errors.
 
 (* The serialiser under the guard: on every heap whose stored references all point to smaller indices
-   (topologically ordered = acyclic object graph; the harness' acyclic stream is of this form) and
-   whose scalar cells hold scalars, serialize terminates from every root with JSON that has no
-   null-valued key (the result type is JSON, so it is serialisable), with the recursion budget
-   2*|heap|+4 — no bound on the heap. *)
-Theorem C16_serializer_partial : forall h, ranked h = true -> scalars_ok h = true ->
+   (topologically ordered = acyclic object graph), without forward-reference dataclasses and whose
+   scalar cells hold scalars, serialize terminates from every root with JSON that has no null-valued
+   key (the result type is JSON, so it is serialisable), with the recursion budget 4*|heap|+8 — no
+   bound on the heap. *)
+Theorem C16_serializer_partial : forall h, ranked h = true -> fwd_free h = true -> scalars_ok h = true ->
   forall r, (r < length h)%nat -> serializer_ok (serialize_top h r).
 Proof. exact serializer_top_partial. Qed.
 Print Assumptions C16_serializer_partial.
 
-Theorem C16_serializer_guard_nonvacuous : ranked h_demo = true /\ scalars_ok h_demo = true /\
-  serialize_top h_demo 4 = Ok (JObj [([97], JObj [([108], JArr [JInt 3; JNull])]); ([98], JInt 3)]).
+Theorem C16_serializer_guard_nonvacuous :
+  ranked h_demo = true /\ fwd_free h_demo = true /\ scalars_ok h_demo = true /\
+  serialize_top h_demo 4 = SOk (JObj [([97], JObj [([108], JArr [JInt 3; JNull])]); ([98], JInt 3)]).
 Proof. exact h_demo_ok. Qed.
 Print Assumptions C16_serializer_guard_nonvacuous.
+
+(* The cyclic shapes that do work (forward-reference dataclasses: pair cycle, back edge through a
+   dict-typed attribute, child.parent inside a list) — one concrete heap, evaluated. *)
+Theorem C16_serializer_cyclic_example : serializer_ok (serialize_top h_cyc 0) /\ ranked h_cyc = false.
+Proof. exact h_cyc_ok. Qed.
+Print Assumptions C16_serializer_cyclic_example.
+
+(* F16d: "always returns JSON-serialisable data" is false: a dict holding a forward-reference
+   dataclass that holds another instance comes back with that instance unconverted, for every budget
+   (and this is not a recursion problem: guard_F16a holds). *)
+Theorem C16_refuted_F16d :
+  guard_F16d h_F16d 2 = false /\ guard_F16a h_F16d 2 = true /\
+  forall fuel, ~ serializer_ok (ser fuel h_F16d true [] 2).
+Proof. exact refuted_F16d. Qed.
+Print Assumptions C16_refuted_F16d.
 
 (* F16a: the full statement "the serialiser terminates on every object graph" is false: on the heap
    with two dataclass instances referencing each other the result is a RecursionError for every
    recursion budget. *)
 Theorem C16_refuted_F16a :
-  guard_F16a h_F16a 0 = false /\ forall fuel, ~ serializer_ok (serialize fuel h_F16a [] 0).
+  guard_F16a h_F16a 0 = false /\ forall fuel, ~ serializer_ok (ser fuel h_F16a true [] 0).
 Proof. exact refuted_F16a. Qed.
 Print Assumptions C16_refuted_F16a.
